@@ -151,6 +151,17 @@ def run(unit, em):
                     okg, _ = must_pass_through(cfg, (cfg.entry, 0), lambda x: x is dels[0], lambda x: x is strip(guard['c']) or x is guard['c'], start_after=False)
                 else:
                     okg = False
+                if not okg:
+                    # the guard may also enclose the release: `if (&rhs != this) { deleteMTBDD(); ... }`
+                    facts, _ = known_facts(dels[0])
+                    for pol, atom in facts:
+                        a = strip(atom)
+                        if a is None or a['k'] not in ('BinaryOperator', 'CXXOperatorCallExpr') or a.get('op') not in ('==', '!='):
+                            continue
+                        has_this = any(x['k'] == 'CXXThisExpr' for x in walk(a))
+                        has_addr = any(x['k'] == 'UnaryOperator' and x.get('op') == '&' and (strip(x['ch'][0]) or {}).get('d') in {p_['d'] for p_ in fn.params} for x in walk(a))
+                        if has_this and has_addr and ((a['op'] == '!=' and pol is True) or (a['op'] == '==' and pol is False)):
+                            okg = True
                 if okg:
                     em.ok(dels[0], 'operator=: self-assignment', 'tested before the old root is released', 'R3a')
                 else:
